@@ -283,7 +283,18 @@ class UTPM(Ring, RawAlgorithmsMixIn):
         # print 'ybar =', ybar
         if isinstance(xbar, cls):
             # a constant right hand side (scalar, ndarray) has no adjoint to accumulate into
-            xbar += ybar[sl]
+            tmp = ybar[sl]
+            if tmp.data.shape != xbar.data.shape:
+                # x has been broadcast to the shape of y[sl]: sum over the broadcast axes
+                tmp_data = tmp.data
+                ndiff = tmp_data.ndim - xbar.data.ndim
+                if ndiff > 0:
+                    tmp_data = tmp_data.sum(axis = tuple(range(2, 2 + ndiff)))
+                axes = tuple(i for i in range(2, tmp_data.ndim) if xbar.data.shape[i] == 1 and tmp_data.shape[i] != 1)
+                if len(axes) > 0:
+                    tmp_data = tmp_data.sum(axis = axes, keepdims = True)
+                tmp = cls(tmp_data)
+            xbar += tmp
         ybar[sl].data[...] = 0.
         # print 'funcargs=',funcargs
         # print y[funcargs[0]]
